@@ -13,14 +13,37 @@ static inline u8 *ir2c_memcpy(u8 *d, const u8 *s, u64 n)
    for (u64 i = 0; i < n; i++) d[i] = s[i];
    return d;
 }
-static inline u8 *ir2c_memmove(u8 *d, const u8 *s, u64 n) { if (d <= s || d >= s + n) { for (u64 i = 0; i < n; i++) d[i] = s[i]; } else { for (u64 i = n; i > 0; i--) d[i-1] = s[i-1]; } return d; }
+#ifdef __CPROVER__
+/* memmove through a temporary: an ordering comparison of two pointers makes CBMC reason about the numeric placement of objects (measured: the solver does not return) */
+#define IR2C_MEMMOVE_MAX 96
+static inline u8 *ir2c_memmove(u8 *d, const u8 *s, u64 n) { u8 tmp[IR2C_MEMMOVE_MAX]; __CPROVER_assert(n <= IR2C_MEMMOVE_MAX, "memmove length within the modelled bound"); __CPROVER_assume(n <= IR2C_MEMMOVE_MAX); for (u64 i = 0; i < n; i++) tmp[i] = s[i]; for (u64 i = 0; i < n; i++) d[i] = tmp[i]; return d; }
+#else
+static inline u8 *ir2c_memmove(u8 *d, const u8 *s, u64 n) { return (u8 *) memmove(d, s, n); }
+#endif
 static inline u8 *ir2c_memset(u8 *d, u32 c, u64 n) { for (u64 i = 0; i < n; i++) d[i] = (u8)c; return d; }
 static inline u32 ir2c_memcmp(const u8 *a, const u8 *b, u64 n) { for (u64 i = 0; i < n; i++) if (a[i] != b[i]) return a[i] < b[i] ? (u32)-1 : 1u; return 0; }
-static inline u64 ir2c_strlen(const u8 *s) { u64 n = 0; while (s[n]) n++; return n; }
+/* strlen with length hints: a harness that knows the (job-constant) length of a symbolic string registers it; the model then CHECKS that the bytes really
+ * form a string of that length (solver-decided) and returns the constant, so that lengths do not become symbolic merely because the content is. */
+#define IR2C_MAXHINTS 6
+static const u8 *ir2c_hint_ptr[IR2C_MAXHINTS]; static u64 ir2c_hint_len[IR2C_MAXHINTS]; static u32 ir2c_nhints;
+void verif_strlen_hint(u8 *p, u32 len) { if (ir2c_nhints < IR2C_MAXHINTS) { ir2c_hint_ptr[ir2c_nhints] = p; ir2c_hint_len[ir2c_nhints] = len; ir2c_nhints++; } }
+static inline u64 ir2c_strlen(const u8 *s)
+{
+   for (u32 h = 0; h < IR2C_MAXHINTS; h++) if (h < ir2c_nhints && s == ir2c_hint_ptr[h])
+   {
+      const u64 n = ir2c_hint_len[h];
+      for (u64 i = 0; i < n; i++) __CPROVER_assert(s[i] != 0, "strlen hint: no NUL before the registered length");
+      __CPROVER_assert(s[n] == 0, "strlen hint: NUL at the registered length");
+      return n;
+   }
+   u64 n = 0; while (s[n]) n++; return n;
+}
 static inline u32 ir2c_strcmp(const u8 *a, const u8 *b) { u64 i = 0; while (a[i] && a[i] == b[i]) i++; return a[i] == b[i] ? 0 : (a[i] < b[i] ? (u32)-1 : 1u); }
 static inline u32 ir2c_strncmp(const u8 *a, const u8 *b, u64 n) { for (u64 i = 0; i < n; i++) { if (a[i] != b[i]) return a[i] < b[i] ? (u32)-1 : 1u; if (!a[i]) return 0; } return 0; }
 static inline u8 *ir2c_strchr(const u8 *s, u32 c) { for (u64 i = 0;; i++) { if (s[i] == (u8)c) return (u8*)s + i; if (!s[i]) return 0; } }
 static u64 ir2c_alloc_total;
+static inline void *ir2c_new(u64 n);
+static inline void ir2c_delete(void *p);
 #ifdef __CPROVER__
 #ifdef IR2C_MAXALLOC
 static inline void *ir2c_new(u64 n) { __CPROVER_assert(n <= IR2C_MAXALLOC, "allocation request within the modelled O(N) budget"); __CPROVER_assume(n <= IR2C_MAXALLOC); ir2c_alloc_total += n;
@@ -41,4 +64,30 @@ static inline void *ir2c_new(u64 n) { ir2c_alloc_total += n; return malloc(n ? n
 #define IR2C_NEW_TYPED(T, n) ((u8*)ir2c_new(n))
 static inline void ir2c_delete(void *p) { free(p); }
 #define ir2c_crash() abort()
+#endif
+
+#ifdef __CPROVER__
+/* realloc: the old block's size comes from a small side table filled by malloc-through-realloc callers (symbolic execution cannot fold __CPROVER_OBJECT_SIZE,
+ * and a copy loop of unknown length is unrolled to the bound); blocks not in the table fall back to the object size. */
+#define IR2C_MAXBLOCKS 24
+static void *ir2c_blk_ptr[IR2C_MAXBLOCKS]; static u64 ir2c_blk_len[IR2C_MAXBLOCKS]; static u32 ir2c_nblk;
+static inline void ir2c_note_block(void *p, u64 n) { if (ir2c_nblk < IR2C_MAXBLOCKS) { ir2c_blk_ptr[ir2c_nblk] = p; ir2c_blk_len[ir2c_nblk] = n; ir2c_nblk++; } }
+static inline void *ir2c_malloc_noted(u64 n) { void *p = ir2c_new(n); ir2c_note_block(p, n); return p; }
+static inline void *ir2c_realloc(void *p, u64 n)
+{
+   if (n == 0) { ir2c_delete(p); return 0; }
+   u8 *q = (u8 *) ir2c_malloc_noted(n);
+   if (p)
+   {
+      u64 old = __CPROVER_OBJECT_SIZE(p) - __CPROVER_POINTER_OFFSET(p);
+      for (u32 h = 0; h < IR2C_MAXBLOCKS; h++) if (h < ir2c_nblk && p == ir2c_blk_ptr[h]) { __CPROVER_assert(ir2c_blk_len[h] <= old, "noted block size is within the object"); old = ir2c_blk_len[h]; break; }
+      const u64 k = old < n ? old : n;
+      for (u64 i = 0; i < k; i++) q[i] = ((u8 *) p)[i];
+      ir2c_delete(p);
+   }
+   return q;
+}
+#else
+static inline void *ir2c_malloc_noted(u64 n) { return ir2c_new(n); }
+static inline void *ir2c_realloc(void *p, u64 n) { return realloc(p, n); }
 #endif
